@@ -6,7 +6,7 @@ class P(StreamProperty):
     pid = 'C01'
     module = 'OpenFecVerif.Props.C01'
     theorems = ['C01_rs_sound_gf8', 'C01_rs_sound_gf4', 'C01_ml_sound', 'C01_it_sound', 'C01_simplify_sound', 'C01_ldpc_configured',
-                'C01_ldpc_session_sound', 'C01_ldpc_roundtrip']
+                'C01_ldpc_session_sound', 'C01_ldpc_roundtrip', 'C01_rs_interpolate_sound_gf8', 'C01_rs_interpolate_sound_gf4']
     rule = ('decoder sessions over RS-2^8, RS-2^m (m=4,8), LDPC-Staircase: all 2^n receive sets for every (k,r) with n<=nmax '
             '(orders: increasing / shuffled with duplicates; stream and table API; with and without finish; callbacks none/buf/null/mix; '
             'identity and random payloads) plus sampled larger blocks with losses near the LDPC threshold, and histories that go on after of_finish_decoding (second finish, late symbols, finish again); '
